@@ -5,6 +5,7 @@ broadcast_shapes, all_indices, bproj) lists, for each element b of the broadcast
 parameter slice and the data slice that b must be computed from.  Those indices are cross-checked
 against torch.broadcast_shapes / Tensor.expand, and every batch-capable module is compared, element
 by element, with a NON-batched replica rebuilt from exactly those slices."""
+import copy
 import itertools
 import json
 import random
@@ -189,6 +190,39 @@ def each_output(**thunks):
     return res
 
 
+def via_index(obj, dense_of, how):
+    """a batched object (lazy kernel tensor, MultivariateNormal) reassembled from pieces obtained through the LIBRARY'S OWN
+    __getitem__ on a batch index: how = first: obj[i] (a PARTIAL index when the batch rank is 2); second: obj[:, j] (rank 2
+    only); slice: obj[i:i+1].  The reassembled tensor has the batch shape of obj, so that
+    element b of it is element b of the batched object as the library itself hands it out.  Non-batched objects (the
+    replicas) are evaluated directly."""
+    bs = tuple(obj.batch_shape)
+    if not bs:
+        return dense_of(obj)
+    if how == "first":
+        return torch.stack([dense_of(obj[i]) for i in range(bs[0])], 0)
+    if how == "slice":
+        return torch.cat([dense_of(obj[i:i + 1]) for i in range(bs[0])], 0)
+    if how == "second":
+        if len(bs) == 1:        # same index expression as `first`
+            return dense_of(obj)
+        return torch.stack([dense_of(obj[:, j]) for j in range(bs[1])], 1)
+    raise ValueError(how)
+
+
+VIA = ("first", "second", "slice")
+# kernels whose lazy tensor is also read through the library's batch indexing: the generic Kernel.__getitem__ (one / two
+# parameters, ARD), ScaleKernel (own parameter + sub-kernel), the AdditiveKernel / ProductKernel overrides, a nested composite
+VIA_KERNELS = ("rbf_ard", "scale_rbf", "rbf+linear", "rbf*matern", "scale(rbf+rq)")
+
+
+def stretched_class(name, sp, m):
+    """input class of the recorded finding C06-batch-index-stretched-kernel as it shows in this check: a batch index applied
+    by the library to a lazy kernel tensor / MultivariateNormal whose KERNEL batch shape is not the broadcast batch shape t
+    (t from the Coq model)"""
+    return "+batch-index-on-stretched-kernel" if "_idx_" in name and tuple(sp) != tuple(m["t"]) else ""
+
+
 def diag_collision(sp, sd, t, n):
     """input class of the recorded finding C08-kernel-diag-batch-rank-heuristic: the kernel's batch shape has exactly
     one dimension more than the inputs' and the last dimension of the broadcast batch equals the number of points n,
@@ -236,7 +270,12 @@ class KernelFam(Family):
                                diag=lambda: mod(data["x"], diag=True),
                                lazy_diag=lambda: mod(data["x"]).diagonal(dim1=-1, dim2=-2),
                                diag_n3=lambda: mod(x3, diag=True),
-                               lazy_diag_n3=lambda: mod(x3).diagonal(dim1=-1, dim2=-2))
+                               lazy_diag_n3=lambda: mod(x3).diagonal(dim1=-1, dim2=-2),
+                               # element b handed out by the library's own indexing of the lazy kernel tensor
+                               **({"K_idx_" + how: (lambda how=how: via_index(mod(data["x"]), lambda o: o.to_dense(), how)) for how in VIA}
+                                  if self.kname in VIA_KERNELS else {}),
+                               **({"Kx_idx_first": lambda: via_index(mod(data["x"], data["x2"]), lambda o: o.to_dense(), "first")}
+                                  if self.kname in VIA_KERNELS else {}))
 
     def input_class(self, name, sp, sd, m):
         # classes of the recorded findings (decided by the Coq model): the kernel's batch shape does not expand to the
@@ -244,7 +283,7 @@ class KernelFam(Family):
         cls = "" if m["expands"] else "+param-batch-exceeds-data-batch"
         if name in ("diag_n3", "lazy_diag_n3") and m["diag_collision"]:
             cls += "+diag-batchdim-eq-n"
-        return cls
+        return cls + stretched_class(name, sp, m)
 
 
 class MeanFam(Family):
@@ -348,9 +387,10 @@ class ExactGPFam(Family):
         def forward(self, x):
             return gpytorch.distributions.MultivariateNormal(self.mean_module(x), self.covar_module(x))
 
-    def __init__(self, kname, mode="both"):
-        """mode: which of (train data, test inputs) carry the data batch shape: both | train-only | test-only"""
-        self.kname, self.mode = kname, mode
+    def __init__(self, kname, mode="both", via=False):
+        """mode: which of (train data, test inputs) carry the data batch shape: both | train-only | test-only;
+        via: also read the prior / posterior through MultivariateNormal.__getitem__ on a (partial) batch index"""
+        self.kname, self.mode, self.via = kname, mode, via
         self.name = "exactgp:%s%s" % (kname, {"both": "", "train-only": ":unbatched-test-x", "test-only": ":unbatched-train-data"}[mode])
 
     def make(self, bs):
@@ -376,16 +416,27 @@ class ExactGPFam(Family):
             res["mll"] = mll(model(x), y)
             prior = model(x)
             res["prior_mean"], res["prior_cov"] = prior.mean, prior.covariance_matrix
+            # the prior / posterior handed out element-wise by MultivariateNormal.__getitem__ on a (partial) batch index
+            if self.via:
+                res.update(each_output(**{"prior_idx_%s_%s" % (how, part): (lambda how=how, f=f: via_index(model(x), f, how))
+                                          for how in ("first", "second") for part, f in (("mean", lambda o: o.mean), ("cov", lambda o: o.covariance_matrix))}))
         model.eval(); mod.likelihood.eval()
         with torch.no_grad():
-            post = model(data["xs_shared"] if self.mode == "train-only" else data["xs"])
+            xs = data["xs_shared"] if self.mode == "train-only" else data["xs"]
+            post = model(xs)
             res["post_mean"], res["post_cov"] = post.mean, post.covariance_matrix
             pred = mod.likelihood(post)
             res["pred_cov"] = pred.covariance_matrix
+            if self.via:
+                res.update(each_output(post_idx_first_mean=lambda: via_index(model(xs), lambda o: o.mean, "first"),
+                                       post_idx_first_cov=lambda: via_index(model(xs), lambda o: o.covariance_matrix, "first")))
         return res
 
     def dslice(self, data, didx):
         return {k: (v if k in self.SHARED else v[didx]) for k, v in data.items()}
+
+    def input_class(self, name, sp, sd, m):
+        return stretched_class(name, sp, m)
 
 
 class VariationalFam(Family):
@@ -550,7 +601,7 @@ class VariationalPriorFam(VariationalFam):
 def families(tier):
     fams = [KernelFam(k) for k in KERNELS]
     fams += [MeanFam("constant"), MeanFam("linear"), GaussLikFam(), FixedNoiseLikFam(), MultitaskLikFam()]
-    fams += [ExactGPFam("scale_rbf"), ExactGPFam("matern25_ard"), ExactGPFam("rbf+linear", mode="train-only"),
+    fams += [ExactGPFam("scale_rbf", via=True), ExactGPFam("matern25_ard"), ExactGPFam("rbf+linear", mode="train-only", via=True),
              ExactGPFam("scale_matern", mode="test-only")]
     fams += [VariationalFam(True), VariationalFam(False)]
     fams += [ExactGPPriorFam(site) for site in ExactGPPriorFam.SITES]
@@ -559,7 +610,8 @@ def families(tier):
 
 
 # event rank (number of trailing non-batch dimensions) of every output
-EV = dict(K=2, Kx=2, diag=1, lazy_diag=1, diag_n3=1, lazy_diag_n3=1, m=1, marg_mean=1, marg_cov=2, elp=1, lmarg=1, mll=0, prior_mean=1, prior_cov=2,
+EV = dict(K_idx_first=2, K_idx_second=2, K_idx_slice=2, Kx_idx_first=2, prior_idx_first_mean=1, prior_idx_first_cov=2,
+          prior_idx_second_mean=1, prior_idx_second_cov=2, post_idx_first_mean=1, post_idx_first_cov=2, K=2, Kx=2, diag=1, lazy_diag=1, diag_n3=1, lazy_diag_n3=1, m=1, marg_mean=1, marg_cov=2, elp=1, lmarg=1, mll=0, prior_mean=1, prior_cov=2,
           post_mean=1, post_cov=2, pred_cov=2, train_mean=1, train_cov=2, kl=0, elbo=0, pred_mean=1, loo=0, pll=0)
 
 
@@ -637,8 +689,18 @@ class ListGP(gpytorch.models.ExactGP):
         super().__init__(x, y, lik)
         self.mean_module, self.covar_module = mean, covar
 
-    def forward(self, x):
-        return gpytorch.distributions.MultivariateNormal(self.mean_module(x), self.covar_module(x))
+    def forward(self, x, scale=1.0, shift=None):
+        """keyword arguments consumed by the member (options threaded through GP.__call__): the prior covariance is
+        multiplied by `scale`, `shift` is added to the prior mean"""
+        mean = self.mean_module(x)
+        return gpytorch.distributions.MultivariateNormal(mean if shift is None else mean + shift, self.covar_module(x) * scale)
+
+
+class KwGaussianLikelihood(gpytorch.likelihoods.GaussianLikelihood):
+    """a Gaussian likelihood whose noise model consumes a keyword argument: the noise covariance is multiplied by `inflate`"""
+
+    def _shaped_noise_covar(self, base_shape, *params, inflate=1.0, **kwargs):
+        return super()._shaped_noise_covar(base_shape, *params, **kwargs) * inflate
 
 
 LIST_LIKS = ("gaussian", "fixed", "fixed+learned", "hetero")
@@ -650,7 +712,7 @@ def make_list_member(rng, lik_kind, kname):
     n = rng.choice([2, 3, 4, 5])
     x, y = points(rng, (), n), rand(rng, n)
     if lik_kind == "gaussian":
-        lik = gpytorch.likelihoods.GaussianLikelihood()
+        lik = KwGaussianLikelihood()
     elif lik_kind in ("fixed", "fixed+learned"):
         lik = gpytorch.likelihoods.FixedNoiseGaussianLikelihood(0.05 + rand(rng, n).abs(), learn_additional_noise=lik_kind == "fixed+learned")
     else:
@@ -690,7 +752,7 @@ def check_model_list(out, seed, reps):
         case = dict(kind="model-list", members=nm, lik=lik_kind, kernel=kname, sizes=[int(y.shape[0]) for y in ys], seed=seed, k=k)
         out.case(case, True, label="model-list:" + lik_kind)
 
-        def form(key, what, thunk):
+        def form(key, what, thunk, tol=1e-12):
             """thunk returns a list of (got, want) tensor / MVN pairs; an exception in a call form is a failure of
             that form"""
             try:
@@ -699,7 +761,7 @@ def check_model_list(out, seed, reps):
                 out.fail("model-list:%s:%s:%s" % (key, lik_kind, type(e).__name__), "%s raised %r" % (what, e), case)
                 return
             for i, (g, w) in enumerate(pairs):
-                ok = _same_mvn(g, w) if isinstance(w, gpytorch.distributions.MultivariateNormal) else _same(g, w)
+                ok = _same_mvn(g, w, tol) if isinstance(w, gpytorch.distributions.MultivariateNormal) else _same(g, w, tol)
                 if not ok:
                     out.fail("model-list:%s:%s" % (key, lik_kind), "%s differs from the members' own output (position %d)" % (what, i),
                              case, impl=getattr(g, "mean", g), model=getattr(w, "mean", w))
@@ -748,6 +810,58 @@ def check_model_list(out, seed, reps):
             form("likelihood:forward:noise-kwarg", "LikelihoodList.forward(*samples, noise=[..])",
                  lambda: [(g.scale, w.scale) for g, w in zip(ml.likelihood.forward(*samples, noise=noises),
                                                              [m.likelihood.forward(f, noise=nz) for m, f, nz in zip(members, samples, noises)])])
+            # ---- keyword arguments that the members consume: the list must hand them to every member
+            sc, sh = 0.5 + rng.random() * 3.0, rng.uniform(-1.0, 1.0)
+            kws = [("scale", dict(scale=sc)), ("scale+shift", dict(scale=sc, shift=sh))]
+            for kn, kw in kws:
+                form("call:train:kwargs:" + kn, "IndependentModelList(*train_inputs, %s)" % ", ".join("%s=.." % a for a in kw),
+                     lambda kw=kw: list(zip(ml(*ml.train_inputs, **kw), [m(x, **kw) for m, x in zip(members, xs)])))
+                form("forward:kwargs:" + kn, "IndependentModelList.forward(*xs, %s)" % ", ".join("%s=.." % a for a in kw),
+                     lambda kw=kw: list(zip(ml.forward(*xs, **kw), [m.forward(x, **kw) for m, x in zip(members, xs)])))
+                form("forward_i:kwargs:" + kn, "IndependentModelList.forward_i(i, x, %s)" % ", ".join("%s=.." % a for a in kw),
+                     lambda kw=kw: [(ml.forward_i(i, xs[i], **kw), members[i].forward(xs[i], **kw)) for i in range(nm)])
+            # ... against the dense definition (the keyword is really consumed): mean = m(x) + shift, covariance = scale * K(x, x)
+            form("call:train:kwargs:dense", "IndependentModelList(*xs, scale=.., shift=..) vs the members' dense prior",
+                 lambda: [(o.mean, m.mean_module(x) + sh) for o, m, x in zip(ml(*xs, scale=sc, shift=sh), members, xs)]
+                 + [(o.covariance_matrix, sc * m.covar_module(x).to_dense()) for o, m, x in zip(ml(*xs, scale=sc, shift=sh), members, xs)], tol=1e-10)
+            if lik_kind == "gaussian":
+                infl = 1.5 + rng.random() * 2.0
+                form("likelihood:marginal:kwargs", "LikelihoodList(*outputs, inflate=..)",
+                     lambda: list(zip(ml.likelihood(*outs, inflate=infl), [m.likelihood(o, inflate=infl) for m, o in zip(members, outs)])))
+                form("likelihood:marginal:kwargs:dense", "LikelihoodList(*outputs, inflate=..) vs covariance + inflate * noise * I",
+                     lambda: [(g.covariance_matrix, o.covariance_matrix + infl * m.likelihood.noise * torch.eye(o.mean.shape[-1]))
+                              for g, m, o in zip(ml.likelihood(*outs, inflate=infl), members, outs)], tol=1e-10)
+                form("likelihood_i:kwargs", "IndependentModelList.likelihood_i(i, output, inflate=..)",
+                     lambda: [(ml.likelihood_i(i, outs[i], inflate=infl), members[i].likelihood(outs[i], inflate=infl)) for i in range(nm)])
+                form("likelihood:elp:kwargs", "LikelihoodList.expected_log_prob(*[(y, f)], inflate=..)",
+                     lambda: list(zip(ml.likelihood.expected_log_prob(*[(y, o) for y, o in zip(ys, outs)], inflate=infl),
+                                      [m.likelihood.expected_log_prob(y, o, inflate=infl) for m, y, o in zip(members, ys, outs)])))
+                form("likelihood:forward:kwargs", "LikelihoodList.forward(*samples, inflate=..)",
+                     lambda: [(g.scale, w.scale) for g, w in zip(ml.likelihood.forward(*samples, inflate=infl),
+                                                                 [m.likelihood.forward(f, inflate=infl) for m, f in zip(members, samples)])])
+                form("likelihood:forward:kwargs:dense", "LikelihoodList.forward(*samples, inflate=..) vs sqrt(inflate * noise)",
+                     lambda: [(g.scale, (infl * m.likelihood.noise).sqrt().expand_as(g.scale)) for g, m in zip(ml.likelihood.forward(*samples, inflate=infl), members)], tol=1e-10)
+        # eval mode with keyword arguments: separate copies (the prediction strategy is cached by the first eval call)
+        if lik_kind in ("gaussian", "fixed+learned"):
+            ml_kw = copy.deepcopy(ml)
+            ref_kw = copy.deepcopy(members)
+            ml_kw.eval()
+            for m in ref_kw:
+                m.eval()
+            with torch.no_grad():
+                form("call:eval:kwargs", "IndependentModelList posterior with scale=..",
+                     lambda: list(zip(ml_kw(*tests, scale=sc), [m(xt, scale=sc) for m, xt in zip(ref_kw, tests)])))
+                # the posterior of the scaled-kernel GP, densely: K* = sc K
+                def dense_post(m, x, y, xt):
+                    Kxx = sc * m.covar_module(x).to_dense() + m.likelihood.noise * torch.eye(len(y))
+                    Ksx = sc * m.covar_module(xt, x).to_dense()
+                    Kss = sc * m.covar_module(xt).to_dense()
+                    sol = torch.linalg.solve(Kxx, torch.cat([(y - m.mean_module(x)).unsqueeze(-1), Ksx.transpose(-1, -2)], -1))
+                    return m.mean_module(xt) + Ksx @ sol[:, 0], Kss - Ksx @ sol[:, 1:]
+                if lik_kind == "gaussian":
+                    form("call:eval:kwargs:dense", "IndependentModelList posterior with scale=.. vs the dense GP posterior under the scaled kernel",
+                         lambda: [pair for o, m, x, y, xt in zip(copy.deepcopy(ml).eval()(*tests, scale=sc), members, xs, ys, tests)
+                                  for pair in zip((o.mean, o.covariance_matrix), dense_post(m, x, y, xt))], tol=1e-8)
         ml.eval()
         with torch.no_grad():
             refs = [m(xt) for m, xt in zip(members, tests)]
@@ -766,6 +880,11 @@ def check_model_list(out, seed, reps):
                 form("fantasy", "IndependentModelList.get_fantasy_model(inputs, targets)",
                      lambda: list(zip(ml.get_fantasy_model(fx, fy)(*tests),
                                       [m.get_fantasy_model(a, b_)(xt) for m, a, b_, xt in zip(members, fx, fy, tests)])))
+            if lik_kind == "gaussian":
+                # (the copies whose caches were built by predictions with the same keyword argument)
+                form("fantasy:kwargs", "IndependentModelList.get_fantasy_model(inputs, targets, scale=..)",
+                     lambda: list(zip(ml_kw.get_fantasy_model(fx, fy, scale=sc)(*tests, scale=sc),
+                                      [m.get_fantasy_model(a, b_, scale=sc)(xt, scale=sc) for m, a, b_, xt in zip(ref_kw, fx, fy, tests)])))
             if lik_kind in ("fixed", "fixed+learned"):
                 form("fantasy:noise-kwarg", "IndependentModelList.get_fantasy_model(inputs, targets, noise=[..])",
                      lambda: list(zip(ml.get_fantasy_model(fx, fy, noise=fn)(*tests),
